@@ -146,24 +146,35 @@ Definition chain (o i : list param) (uva uvk : bool) (n0 : nat) (names0 : list n
   accepts i (mkCall (n0 + (if uva then surplus_pos o c else 0))
                     (names0 ++ (if uvk then surplus_kws o c else []))).
 
+(* The forwarding chain looks at the surplus of the outer call, so positional
+   counts up to |positional o| + |positional i| + 1 matter (found while proving
+   completeness: with the per-signature maximum a surplus larger than inner's
+   positional count was never tried when the result has few positionals). *)
+Definition sum_pos (sigs : list (list param)) : nat :=
+  fold_left Nat.add (map (fun s => length (positional s)) sigs) 0%nat.
+
+Definition shapes_chain (sigs : list (list param)) : list call :=
+  let ns := dedup (all_names sigs) in
+  shapes (sum_pos sigs) ns (fresh_for ns).
+
 (* surplus must exist only in forwarded stars for "calling outer" to be what the
    result describes: when a star is not forwarded, outer keeps it. *)
 Definition chain_sound_cex (r o i : list param) (uva uvk : bool) (n0 : nat)
            (names0 : list name) (extra_inputs : list (list param)) : option call :=
   find_cex (fun c => negb (noncolliding c r (o :: i :: extra_inputs) && accepts r c)
                      || chain o i uva uvk n0 names0 c)
-           (shapes_for (r :: o :: i :: extra_inputs)).
+           (shapes_chain (r :: o :: i :: extra_inputs)).
 
 Definition chain_exact_cex (r o i : list param) (uva uvk : bool) (n0 : nat)
            (names0 : list name) (extra_inputs : list (list param)) : option call :=
   find_cex (fun c => negb (noncolliding c r (o :: i :: extra_inputs))
                      || Bool.eqb (accepts r c) (chain o i uva uvk n0 names0 c))
-           (shapes_for (r :: o :: i :: extra_inputs)).
+           (shapes_chain (r :: o :: i :: extra_inputs)).
 
 Definition chain_none_cex (o i : list param) (uva uvk : bool) (n0 : nat)
            (names0 : list name) : option call :=
   find_cex (fun c => negb (chain o i uva uvk n0 names0 c))
-           (shapes_for [o; i]).
+           (shapes_chain [o; i]).
 
 (* C03/C19: r accepts c  <->  s accepts (n + npos c, names ++ kws c), for calls
    whose keywords are disjoint from names (mask) *)
